@@ -21,7 +21,7 @@ ASSUMPTIONS = ['the grammar is finite; the quick tier covers every production ma
 PROBES = []
 PLAN = {
   'quick': {'strata': {'grammar': 4000, 'two-threads': 4000}, 'wall_s': 300, 'chunk': 100, 'min_conclusive': 1000},
-  'thorough': {'strata': {'grammar': 60000, 'two-threads': 100000}, 'wall_s': 600, 'chunk': 250, 'min_conclusive': 10000},
+  'thorough': {'strata': {'grammar': 60000, 'two-threads': 100000}, 'wall_s': 600, 'chunk': 250, 'min_conclusive': 1000},
 }
 AUG = ['+=', '-=', '*=', '//=', '**=', '<<=', '>>=', '|=', '&=', '^=', '%=']
 CMP = ['==', '!=', '<', '<=', '>', '>=']
